@@ -139,6 +139,14 @@ func init() {
 		}
 		fmt.Fprintf(r.w, "op snappath fn=%s dir=%s ext=%s test=%s standalone=%s trim=%s frames=%s\n",
 			fn, dir, ext, vhex([]byte(name)), vb(standalone), vb(o.Sort), strings.Join(fs, ","))
-		fmt.Fprintf(r.w, "snappath %d probe=%s cfgsame=%s path=%s\n", r.idx, vb(vProbeCalibrated(r)), vb(cfgSame), vhex([]byte(p)))
+		// for a standalone location also the path of the FIRST call, as the library itself derives it from the generic path (a
+		// fresh ordinal registry): the generic path's placeholder scheme is the library's own business, the k-th path is what the
+		// property speaks about ("*" on the model's side: compared by the oracle only)
+		first := "-"
+		if standalone {
+			f1, _ := newStandaloneRegistry().getTestID(p, p)
+			first = vhex([]byte(f1))
+		}
+		fmt.Fprintf(r.w, "snappath %d probe=%s cfgsame=%s path=%s first=%s\n", r.idx, vb(vProbeCalibrated(r)), vb(cfgSame), vhex([]byte(p)), first)
 	}
 }
